@@ -14,13 +14,13 @@ def node_names(nodes, seed=0):
         # siblings whose names are prefixes of each other ("lib", "libx", "libxx": a prefix sorts first, so index order is kept)
         return ["lib" + "x" * i for i in range(len(nodes))]
     if seed % 3 == 2:
-        # names by position among the siblings: the same names recur in different directories ("00-n" at the top and inside every
+        # names by position among the siblings: the same names recur in different directories ("00-e😀" at the top and inside every
         # directory), so the text of a link to a sibling can equal the path of a member somewhere else
         seen, out = {}, []
         for n in nodes:
             k = seen.get(n["p"], 0)
             seen[n["p"]] = k + 1
-            out.append(f"{k:02d}-n")
+            out.append(f"{k:02d}-{BASES[(k + 6) % len(BASES)]}")      # (the first sibling of every directory carries an astral character)
         return out
     return [f"{i:02d}-{BASES[i % len(BASES)]}" for i in range(len(nodes))]
 
